@@ -29,11 +29,11 @@ func raceProbe(res *lib.Result, newState bool) {
 	for _, line := range blocks {
 		d, err := decodeDiff("0.13.2", line)
 		if err != nil {
-			res.Note("race probe: %v", err)
+			res.Fatalf("torn-read probe (%s): %v", kind, err)
 			return
 		}
 		if _, err := g.Next(&lib.BlockSpec{Version: d.Version, Diff: d.Diff, Classes: d.Classes, NoTxs: true}); err != nil {
-			res.Note("race probe: %v", err)
+			res.Fatalf("torn-read probe (%s): %v", kind, err)
 			return
 		}
 	}
@@ -50,7 +50,7 @@ func raceProbe(res *lib.Result, newState bool) {
 				fdb := newFaultDB(newMem())
 				bc := lib.NodeOn(fdb, g.Net, newState)
 				if err := lib.StoreOn(bc, g.Bundles[0]); err != nil {
-					res.Note("race probe store: %v", err)
+					res.Fatalf("torn-read probe (%s): store of block 0: %v", kind, err)
 					return
 				}
 				var r core.StateReader
@@ -61,7 +61,7 @@ func raceProbe(res *lib.Result, newState bool) {
 					r, _, err = bc.StateAtBlockHash(g.Bundles[0].Block.Hash)
 				}
 				if err != nil {
-					res.Note("race probe reader: %v", err)
+					res.Fatalf("torn-read probe (%s): reader of block 0: %v", kind, err)
 					return
 				}
 				fired := false
